@@ -55,6 +55,21 @@ fn wasm_checks(txs: &[Transaction], rep: &TaxReport, years: &[u16], cnt: &mut Co
     use std::str::FromStr;
     let Ok(emb) = cgt_core::Config::embedded() else { return };
     if years.iter().any(|y| emb.get_exemption(*y).is_err()) { return; }
+    // the embedded exemptions are thousands of pounds: trade a thousand times the quantities so that gains and losses
+    // straddle them (a year can then have a gain above the exemption next to a loss)
+    let big: Vec<Transaction> = txs.iter().cloned().map(|mut t| {
+        match &mut t.operation {
+            Operation::Buy { amount, .. } | Operation::Sell { amount, .. } => { *amount *= Decimal::from(1000); }
+            _ => {}
+        }
+        t
+    }).collect();
+    let b2 = big.clone();
+    let e2 = emb.clone();
+    let Ok(Ok(rep_big)) = guarded(move || calculate(&b2, None, None, &e2).map_err(|e| e.to_string())) else { return };
+    let rep = &rep_big;
+    let txs = &big[..];
+    if rep.tax_years.iter().any(|y| y.net_gain > y.exempt_amount && y.total_loss > Decimal::ZERO) { cnt.inc("wasm_years_taxable_with_loss"); }
     let dsl = to_dsl(txs);
     let call = |y: Option<i32>| -> Option<serde_json::Value> {
         let d = dsl.clone();
